@@ -178,6 +178,35 @@ func init() {
 			st.States, st.Transitions, st.Nontrivial = st.Execs, st.Execs, st.Execs
 			st.NOutcomes = int(st.Execs)
 		}
+		// valid records of highly compressible bodies: decoding stays within the same allocation bound (nothing is inflated)
+		if c.Want("decode-allocation-valid-records") && c.Shard == 0 {
+			st := c.Stat("decode-allocation-valid-records", "enumeration")
+			st.Bounds = "entries whose only variants are gzip + br of {64 KiB, 1 MiB, 8 MiB} of a repeated byte / repeated JSON line: allocation of one decode <= 64 x record + 256 KiB"
+			for _, L := range []int{64 << 10, 1 << 20, 8 << 20} {
+				for bi, body := range [][]byte{bytes.Repeat([]byte("a"), L), bytes.Repeat([]byte(`{"k":"value","n":12345}`+"\n"), L/24)} {
+					resp := &cache.HTTPResponse{StatusCode: 200, Header: http.Header{"Content-Type": {"application/json"}}, CompressMinLength: 1024, GzipBody: refEncode("gzip", body), BrBody: refEncode("br", body)}
+					hc := cache.VerifNewEntry()
+					hc.Get()
+					hc.Cacheable(resp, 60)
+					rec, err := hc.Bytes()
+					if err != nil {
+						c.Violation("decode-allocation-valid-records", "encode-error", err.Error(), nil, nil, nil)
+						continue
+					}
+					st.Execs++
+					var derr error
+					alloc := allocDelta(func() { _, derr = cache.VerifDecode(rec) })
+					kase := map[string]interface{}{"body_bytes": len(body), "body_kind": bi, "record_bytes": len(rec)}
+					if derr != nil {
+						c.Violation("decode-allocation-valid-records", "decode-error-on-own-record", derr.Error(), nil, kase, nil)
+					} else if alloc > uint64(64*len(rec)+256<<10) {
+						c.Violation("decode-allocation-valid-records", "decode-allocation-unbounded", fmt.Sprintf("decoding the valid %d-byte record of a %d-byte body allocated %d bytes (%dx the record)", len(rec), len(body), alloc, alloc/uint64(len(rec))), nil, kase, nil)
+					}
+				}
+			}
+			st.States, st.Transitions, st.Nontrivial = st.Execs, st.Execs, st.Execs
+			st.NOutcomes = int(st.Execs)
+		}
 		if c.Want("mutations") {
 			st := c.Stat("mutations", "enumeration")
 			// corpus of small valid records
